@@ -168,6 +168,7 @@ def run(ctx):
   ctx.rule = ('random layouts: Covariance (d 1..5, full-rank / exactly singular covariance, duplicated samples), RCA (unbalanced '
               'chunks, chunk label -1, n_components 1..d), LFDA (d 2..3, 2-3 unbalanced classes, k in {None,1,2,3}, three '
               'embedding types, n_components 1..d); distinct by event content; non-trivial = reduced dimension or singular case')
+  ctx.rule += " Plus the executions of the repository's own test suite recorded by the pytest tracing plugin (one case per test / per estimator object; distinct by test id)."
   pairs = core.generate(MOD, rs)
   core.judge(ctx, *SPEC, pairs, signature_of)
   for r, t in pairs:
